@@ -37,6 +37,7 @@ def run(ctx):
     # directed: inputs needing the second pass (fewer than 4 decimal nibbles)
     from cryptography.hazmat.primitives.ciphers import Cipher, algorithms, modes
     found, tried, want, budget = 0, 0, ctx.n(60, 600), ctx.n(400000, 4000000)
+    shapes = {}
     while tried < budget and found < want:
         pvk = rng.randbytes(rng.choice((8, 16, 24)))
         enc = Cipher(algorithms.TripleDES(pvk), modes.ECB()).encryptor()
@@ -45,11 +46,28 @@ def run(ctx):
             pvki, pin, pan = rnd(1), rnd(4), rnd(rng.choice((12, 13, 16, 16, 19, 24)))
             tsp = pan[len(pan) - 12:len(pan) - 1] + pvki + pin
             r = enc.update(o.from_nibbles([int(c) for c in tsp]))
-            if sum(1 for x in o.nibbles(r) if x < 10) < 4:
+            nb = o.nibbles(r)
+            dec = [x for x in nb if x < 10]
+            if len(dec) < 4:
                 cases.append(("generate_visa_pvv", (pvk, pvki, pin, pan)))
                 found += 1
                 if found >= want:
                     break
+            else:
+                shape = None
+                if len(set(dec)) <= 2:
+                    shape = "four or more decimal nibbles, at most two distinct values"
+                elif len(dec) == 4:
+                    shape = "exactly four decimal nibbles"
+                elif len(dec) == 16:
+                    shape = "all sixteen nibbles decimal"
+                elif all(x >= 10 for x in nb[:4]):
+                    shape = "first four nibbles are letters"
+                elif all(x >= 10 for x in nb[-8:]):
+                    shape = "decimal nibbles only in the first half"
+                if shape and shapes.get(shape, 0) < 6:
+                    shapes[shape] = shapes.get(shape, 0) + 1
+                    cases.append(("generate_visa_pvv", (pvk, pvki, pin, pan)))
     for pvkl in (0, 7, 9, 15, 17, 25, 32):
         cases.append(("generate_visa_pvv", (rng.randbytes(pvkl), "1", "1234", "1122334455667788")))
     for pvki in ("", "11", "A", "１", " ", "+"):
@@ -64,5 +82,7 @@ def run(ctx):
              "needing the second decimalisation pass + domain edges; oracle = independent PVV; non-trivial = distinct successful calls")
     fw.inplace_history(res, rng, [c for c in cases if check_impl(c[0], c[1], core.impl_call(c[0], c[1])) is None][:200], check_impl)
     res["distribution"]["second_pass_inputs"] = found
+    for shape, k in shapes.items():
+        res["distribution"]["encrypted TSP: " + shape] = k
     res["distribution"]["corpus_inputs_0_or_1_decimal_nibbles"] = len(corpus)
     return res
